@@ -456,12 +456,159 @@ def gen_par(repo, out, report):
     return {'sites': [{'file': r, 'arg': a, 'chain': c} for r, a, c in sites]}
 
 
+def gen_sorts(repo, out, report):
+    """G9: the sort calls that fix every emission order: (file, function, receiver, normalised call text).  The models sort
+    with exactly these keys (Model/Locals.v sort_ids, Model/EmitM.v sort_funcs / sort_types / sort_nm, Model/CodeMap.v sort_ranges,
+    Model/Dwarf.v tables); the expected text is pinned by a theorem, so a changed key or a dropped sort breaks the tie."""
+    wanted = [('src/module/functions/local_function/mod.rs', 'emit_locals', 'used_locals', 'SS_used_locals'),
+              ('src/module/functions/mod.rs', 'used_local_functions', 'functions', 'SS_local_functions'),
+              ('src/module/types.rs', 'emit', 'tys', 'SS_types'),
+              ('src/module/functions/mod.rs', 'emit', 'function_ranges', 'SS_function_ranges'),
+              ('src/module/debug/expression.rs', 'new', 'address_convert_table', 'SS_dwarf_ranges'),
+              ('src/module/debug/expression.rs', 'new', 'instrument_address_convert_table', 'SS_dwarf_instrs')]
+    res = []
+    def flat(items):
+        for x in items:
+            if isinstance(x, Group):
+                yield x
+                for y in flat(x.items): yield y
+            else: yield x
+    for rel, fn, recv, tag in wanted:
+        p, t = src_tree(repo, rel)
+        # the function may exist several times in a file (impl blocks): take every body and look for the receiver
+        found = None
+        def bodies(items, acc):
+            for i, x in enumerate(items):
+                if is_id(x, 'fn') and i + 1 < len(items) and is_id(items[i + 1], fn):
+                    for u in items[i + 2:]:
+                        if is_g(u, '{}'): acc.append(u); break
+                if isinstance(x, Group): bodies(x.items, acc)
+        acc = []; bodies(t, acc)
+        for b in acc:
+            toks = list(flat(b.items))
+            for i, x in enumerate(toks):
+                if is_id(x, recv) and i + 3 < len(toks) and is_p(toks[i + 1], '.') and isinstance(toks[i + 2], Tok) and toks[i + 2].s.startswith('sort') and is_g(toks[i + 3], '()'):
+                    found = (toks[i + 2].s + '(' + text(toks[i + 3].items).replace(' ', '') + ')').replace('(*', '( *'); break   # no comment opener inside Coq strings
+            if found: break
+        res.append((tag, rel, fn, recv, found or 'NO_SORT'))
+    # the name section: every per-kind vector is sorted by index
+    p, t = src_tree(repo, 'src/module/mod.rs')
+    b = fn_body(t, 'emit_name_section')
+    if b is None: raise Refuse('emit_name_section not found')
+    toks = list(flat(b.items)); nm = []
+    for i, x in enumerate(toks):
+        if isinstance(x, Tok) and x.k == 'id' and i + 3 < len(toks) and is_p(toks[i + 1], '.') and isinstance(toks[i + 2], Tok) and toks[i + 2].s.startswith('sort') and is_g(toks[i + 3], '()'):
+            nm.append((x.s, toks[i + 2].s + '(' + text(toks[i + 3].items).replace(' ', '') + ')'))
+    o = ['(* GENERATED by /verif/translator/gen_more.py (G9): the sort calls that fix emission orders -- do not edit *)', 'From Coq Require Import List String. Import ListNotations. Open Scope string_scope.',
+         'Inductive sort_site := ' + ' | '.join(tag for tag, *_ in res) + '.',
+         'Definition sort_call (s : sort_site) : string :=\n  match s with\n' + '\n'.join('  | %s => "%s"' % (tag, call.replace('"', "'")) for tag, _, _, _, call in res) + '\n  end.',
+         'Definition name_section_sorts : list (string * string) := [%s].' % '; '.join('("%s", "%s")' % (a, c) for a, c in nm)]
+    content = '\n'.join(o) + '\n'
+    path = os.path.join(out, 'SortKeys.v')
+    try:
+        if open(path).read() != content: open(path, 'w').write(content)
+    except OSError: open(path, 'w').write(content)
+    return {'sorts': [{'site': tag, 'call': call} for tag, _, _, _, call in res], 'name_section': nm}
+
+
+def skeleton(items, ctx, out, is_event):
+    """control skeleton of a function body: every `event` (a token position satisfying is_event) with the chain of
+    enclosing match arms / if conditions / loops, as normalised text"""
+    i = 0; n = len(items)
+    def upto_block(j):
+        # the body is the first `{..}` group that is not part of a struct pattern (`if let K { .. } = e {body}`)
+        hdr = []
+        while j < n and not (is_g(items[j], '{}') and not (j + 1 < n and is_p(items[j + 1], '='))): hdr.append(items[j]); j += 1
+        return hdr, j
+    while i < n:
+        x = items[i]
+        if is_id(x, 'match'):
+            hdr, j = upto_block(i + 1)
+            if j < n:
+                for pat, body in arms(items[j]):
+                    skeleton(body, ctx + ['match %s: %s' % (text(hdr).replace(' ', ''), text(pat).replace(' ', ''))], out, is_event)
+                i = j + 1; continue
+        if is_id(x, 'if') or is_id(x, 'while') or is_id(x, 'for'):
+            hdr, j = upto_block(i + 1)
+            if j < n:
+                label = '%s %s' % (x.s, text(hdr).replace(' ', ''))
+                skeleton(items[j].items, ctx + [label], out, is_event)
+                i = j + 1
+                if x.s == 'if' and i < n and is_id(items[i], 'else'):
+                    if i + 1 < n and is_g(items[i + 1], '{}'):
+                        skeleton(items[i + 1].items, ctx + ['else-of ' + label], out, is_event); i += 2
+                    else:
+                        i += 1   # `else if`: handled by the next iteration with the same ctx (flattened chain)
+                continue
+        ev = is_event(items, i)
+        if ev: out.append((' > '.join(ctx), ev))
+        if isinstance(x, Group): skeleton(x.items, ctx, out, is_event)
+        i += 1
+
+def gen_skeletons(repo, out, report):
+    """G10: the push / insert / delete skeleton of passes::used (Used::new and UsedVisitor) and passes::gc::run: which
+    entity is pushed or deleted under which match arm / condition.  Pinned by theorems of C06 / C07: the GC model
+    (Model/GC.v roots, succ, used, gc) is written against exactly this skeleton."""
+    def ev_used(items, i):
+        x = items[i]
+        if is_id(x, 'stack') and not (i > 0 and is_p(items[i - 1], '.')) and i + 3 < len(items) and is_p(items[i + 1], '.') and isinstance(items[i + 2], Tok) and items[i + 2].s.startswith('push_') and is_g(items[i + 3], '()'):
+            return items[i + 2].s + '(' + text(items[i + 3].items).replace(' ', '') + ')'
+        if is_id(x, 'stack') and i + 7 < len(items) and is_p(items[i + 1], '.') and is_id(items[i + 2], 'used') and is_p(items[i + 3], '.') and is_p(items[i + 5], '.') and is_id(items[i + 6], 'insert'):
+            return 'used.' + items[i + 4].s + '.insert(' + text(items[i + 7].items).replace(' ', '') + ')'
+        if is_id(x, 'self') and i + 5 < len(items) and is_p(items[i + 1], '.') and is_id(items[i + 2], 'stack') and is_p(items[i + 3], '.') and isinstance(items[i + 4], Tok) and items[i + 4].s.startswith('push_'):
+            return 'visitor:' + items[i + 4].s + '(' + text(items[i + 5].items).replace(' ', '') + ')'
+        if is_id(x, 'section') and i + 2 < len(items) and is_p(items[i + 1], '.') and is_id(items[i + 2], 'add_gc_roots'): return 'custom.add_gc_roots'
+        if is_id(x, 'dfs_in_order'): return 'dfs_in_order'
+        return None
+    p, t = src_tree(repo, 'src/passes/used.rs')
+    def all_bodies(items, name, acc):
+        for i, x in enumerate(items):
+            if is_id(x, 'fn') and i + 1 < len(items) and is_id(items[i + 1], name):
+                for u in items[i + 2:]:
+                    if is_g(u, '{}'): acc.append(u); break
+            if isinstance(x, Group): all_bodies(x.items, name, acc)
+    cands = []; all_bodies(t, 'new', cands)
+    body = next((b for b in cands if 'exports' in text(b.items)), None)
+    if body is None: raise Refuse('Used::new not found')
+    used = []; skeleton(body.items, [], used, ev_used)
+    vis = []
+    # the UsedVisitor methods
+    src = open(os.path.join(repo, 'src/passes/used.rs')).read()
+    for m in re.finditer(r'fn (visit_\w+)\s*\(', src):
+        b = fn_body(t, m.group(1))
+        if b is not None:
+            tmp = []; skeleton(b.items, [m.group(1)], tmp, ev_used); vis += tmp
+    def ev_gc(items, i):
+        x = items[i]
+        if (is_id(x, 'module') or is_id(x, 'm')) and not (i > 0 and is_p(items[i - 1], '.')) and i + 5 < len(items) and is_p(items[i + 1], '.') and isinstance(items[i + 2], Tok) and is_p(items[i + 3], '.') and isinstance(items[i + 4], Tok) and items[i + 4].s in ('delete', 'remove') and is_g(items[i + 5], '()'):
+            return items[i + 2].s + '.' + items[i + 4].s + '(' + text(items[i + 5].items).replace(' ', '') + ')'
+        return None
+    p2, t2 = src_tree(repo, 'src/passes/gc.rs')
+    b2 = fn_body(t2, 'run')
+    if b2 is None: raise Refuse('gc::run not found')
+    gcs = []; skeleton(b2.items, [], gcs, ev_gc)
+    def coq_list(l): return '[' + '; '.join('("%s", "%s")' % (a.replace('"', "'"), b.replace('"', "'")) for a, b in l) + ']'
+    o = ['(* GENERATED by /verif/translator/gen_more.py (G10): control skeleton of src/passes/used.rs and src/passes/gc.rs -- do not edit *)',
+         'From Coq Require Import List String. Import ListNotations. Open Scope string_scope.',
+         'Definition used_new_skeleton : list (string * string) :=\n  ' + coq_list(used) + '.',
+         'Definition used_visitor_skeleton : list (string * string) :=\n  ' + coq_list(vis) + '.',
+         'Definition gc_run_skeleton : list (string * string) :=\n  ' + coq_list(gcs) + '.']
+    content = '\n'.join(o) + '\n'
+    path = os.path.join(out, 'GcSkeleton.v')
+    try:
+        if open(path).read() != content: open(path, 'w').write(content)
+    except OSError: open(path, 'w').write(content)
+    return {'used_new': len(used), 'used_visitor': len(vis), 'gc_run': len(gcs)}
+
+
 def run(repo, out, report, g):
     try:
         report['attrs'] = gen_attrs(repo, out, report)
         report['features'] = gen_features(repo, out, report)
         report['gate'] = gen_gate(repo, out, report)
         report['par'] = gen_par(repo, out, report)
+        report['sorts'] = gen_sorts(repo, out, report)
+        report['gc_skeleton'] = gen_skeletons(repo, out, report)
     except Refuse as e:
         import gen
         raise gen.Refuse(str(e))
